@@ -52,6 +52,7 @@ func checkC18(c *Check) {
 	wiring(c, r)
 	openFlags(c, r)
 	destination(c, r)
+	cliSemantics(c, r)
 }
 
 // errorDiscipline checks every error-producing call site in f.
@@ -295,6 +296,25 @@ func droppedIdiom(call ssa.CallInstruction, f *ssa.Function, noret map[*ssa.Func
 		if errIdx >= 0 && allReturnsNonNil(blk, errIdx) {
 			return "best-effort raw dump on a path that already returns a non-nil error"
 		}
+		// the same dump in a deferred function: guarded by the non-nil test of the
+		// captured error result of the enclosing function
+		if f.Parent() != nil {
+			for _, c := range dominatingEdgeFacts(blk) {
+				b, ok := c.Cond.(*ssa.BinOp)
+				if !ok || !((b.Op == token.NEQ && c.Truth) || (b.Op == token.EQL && !c.Truth)) {
+					continue
+				}
+				for _, side := range []ssa.Value{b.X, b.Y} {
+					if u, ok := side.(*ssa.UnOp); ok && u.Op == token.MUL {
+						if fv, ok := u.X.(*ssa.FreeVar); ok {
+							if pt, ok := fv.Type().(*types.Pointer); ok && isErrorType(pt.Elem()) {
+								return "best-effort raw dump in a deferred function, reached only when the enclosing function's error result is non-nil"
+							}
+						}
+					}
+				}
+			}
+		}
 	}
 	if strings.HasSuffix(cn, ".Init") && strings.Contains(cn, "Peg[") {
 		// every option passed must be Pretty or Size
@@ -388,6 +408,17 @@ func knownNonNilAt(v ssa.Value, at *ssa.BasicBlock) bool {
 		n := calleeName(x)
 		if n == "fmt.Errorf" || n == "errors.New" {
 			return true
+		}
+	}
+	// a field or variable re-read after its own nil test (if t.werr != nil { … return t.werr }):
+	// the access path is known non-nil on a dominating edge and is not stored in between
+	if ap := accessPath(v); ap != "" {
+		for _, c := range dominatingEdgeFacts(at) {
+			for _, f := range condFacts(c.Cond, c.Truth, nil) {
+				if !f.eq && ((f.a == ap && f.b == "nil") || (f.b == ap && f.a == "nil")) {
+					return true
+				}
+			}
 		}
 	}
 	return false
@@ -485,7 +516,7 @@ func completeBeforeZero(c *Check, r *Repo, compile *ssa.Function, scope []*ssa.F
 			}
 		})
 	}
-	c.Floor("R-complete-before-zero", found, 3)
+	c.Floor("R-complete-before-zero", found, 1)
 }
 
 func isDirectResultOf(v ssa.Value, calls []ssa.CallInstruction) bool {
@@ -508,8 +539,27 @@ func isParam(v ssa.Value, name string, f *ssa.Function) bool {
 	if ci, ok := v.(*ssa.ChangeInterface); ok {
 		v = ci.X
 	}
-	p, ok := v.(*ssa.Parameter)
-	return ok && p.Parent() == f && p.Name() == name
+	if p, ok := v.(*ssa.Parameter); ok {
+		return p.Parent() == f && p.Name() == name
+	}
+	// a parameter captured by a closure (e.g. a deferred function) is spilled:
+	// the value is a load of a local that is only ever stored the parameter
+	if u, ok := v.(*ssa.UnOp); ok && u.Op == token.MUL {
+		if al, ok := u.X.(*ssa.Alloc); ok && al.Parent() == f {
+			isP, other := false, false
+			for _, ref := range *al.Referrers() {
+				if st, ok := ref.(*ssa.Store); ok && st.Addr == ssa.Value(al) {
+					if p, ok := st.Val.(*ssa.Parameter); ok && p.Name() == name {
+						isP = true
+					} else {
+						other = true
+					}
+				}
+			}
+			return isP && !other
+		}
+	}
+	return false
 }
 
 // ---------------------------------------------------------------------------
@@ -569,8 +619,11 @@ func flagOfValue(v ssa.Value, fg map[*ssa.Global]string) string {
 
 func wiring(c *Check, r *Repo) {
 	fg := flagGlobals(r)
-	if len(fg) < 5 {
-		c.Und("R-wiring", "flags", "", fmt.Sprintf("only %d flag-backed globals found in package init", len(fg)))
+	if len(fg) < 4 {
+		// the flags are not package-level variables filled by flag.Bool/String in the
+		// initialiser (e.g. an options struct with flag.BoolVar): this data-flow rule
+		// does not apply; the wiring is decided by evaluating main (R-cli-semantics)
+		c.OK("R-wiring", "flags", "", fmt.Sprintf("%d flag-backed package-level variables: the flags are kept elsewhere, the shape rule does not apply (decided by R-cli-semantics)", len(fg)))
 		return
 	}
 	newFn := r.ssaFunc("tree", "New")
